@@ -92,15 +92,28 @@ func (w *world) consumerStep(op string, f []string, async bool, refs *[]*refHold
 			c.cbs = append(c.cbs, e)
 			c.mu.Unlock()
 			r := 0
+			var ret error
 			select {
 			case r = <-e.retCh:
+				switch r {
+				case 9:
+					// a context-aware callback: it reports the state of its own context (Canceled once the
+					// value it was given has been invalidated, nil before)
+					ret = cbCtx.Err()
+					r = consErrID(ret)
+				case 10:
+					// context.Canceled of the callback's own making
+					ret, r = context.Canceled, 9
+				default:
+					ret = cbErrOf(r)
+				}
 				log.Add("cbout access %d %d %d", id, e.n, r)
 			case <-w.stop:
 			}
 			c.mu.Lock()
 			e.done = true
 			c.mu.Unlock()
-			return cbErrOf(r)
+			return ret
 		}
 		w.call(true, func() {
 			defer guard(id)
@@ -128,7 +141,7 @@ func (w *world) consumerStep(op string, f []string, async bool, refs *[]*refHold
 			return
 		}
 		r := atoi(f[3])
-		if r != 0 && (r < 4 || r > 6) {
+		if r != 0 && (r < 4 || r > 6) && r != 9 && r != 10 {
 			r = 4
 		}
 		select {
@@ -275,7 +288,7 @@ func genConsumers(rng *rand.Rand, tier string) []string {
 			j := accs[rng.Intn(len(accs))]
 			e := 0
 			if rng.Intn(3) == 0 {
-				e = 4 + rng.Intn(3)
+				e = []int{4, 5, 6, 9, 9, 10}[rng.Intn(6)]
 			}
 			out = append(out, fmt.Sprintf("cbreturn %d %d %d", j, ncb[j], e))
 			if rng.Intn(3) > 0 {
@@ -333,6 +346,12 @@ func init() {
 			// is held (2nd lock-enter); the reference is still notified, the release goroutine's Release is a no-op
 			// and `released` runs before the call has returned
 			{"config 0 1 1", "gate lock-enter 2", "rwr 1", "settle", "cancelcall 0", "settle", "return 0 v 1 0", "settle", "setctx 2", "settle", "opengate 0", "quiesce", "return 1 v 1 0", "quiesce"},
+			// a context-aware Access callback returns ctx.Err() of its callback context (seed C10-d2): Canceled from
+			// an invocation whose value was invalidated is discarded like any other result and the callback is
+			// invoked again with the replacement; nil when nothing was invalidated; a Canceled of the callback's
+			// own making (value still valid) is returned as such
+			{"config 0 1 1", "access", "return 0 v 1 0", "settle", "released 0", "quiesce", "cbreturn 0 0 9", "settle", "return 1 v 1 0", "quiesce", "cbreturn 0 1 9", "quiesce", "access", "settle", "cbreturn 1 0 10", "quiesce"},
+			{"config 0 1 1", "access", "return 0 v 1 0", "settle", "setctx 2", "quiesce", "cbreturn 0 0 9", "quiesce", "return 1 0 1 0", "quiesce", "cbreturn 0 1 10", "quiesce"},
 			// AddRefPromise as a step of its own (seed C10-c1): the promise is empty again from the invalidation
 			// of the value until the replacement is resolved; it carries errors
 			{"config 0 1 1", "addrefpromise", "quiesce", "return 0 v 1 0", "quiesce", "released 0", "quiesce", "return 1 v 1 0", "quiesce", "setctx 2", "quiesce", "return 2 0 1 2", "quiesce", "clearctx", "quiesce"},
